@@ -83,7 +83,78 @@ def r16h(ctx):
     ctx.floor("R16h", n, 1, "base-heap methods taking a raw key")
 
 
+def r16i(ctx):
+    m = ctx.model
+    ctx.rule("R16i", "heap maintenance is iterative: trees of a Fibonacci heap are not height-bounded once nodes are removed, so a "
+                     "method that calls itself once per ancestor (cascading cut) runs out of stack on a tall chain of marked nodes - "
+                     "and the callers update _min / unlink the node only after it returns, leaving the heap inconsistent")
+    q = m.need_class("FibonacciHeap")
+    n = 0
+    for name, (kind, fn) in sorted(m.attrs[q].items()):
+        if kind != "def":
+            continue
+        n += 1
+        rec = [c for c in walk_no_nested(fn.node) if isinstance(c, ast.Call) and self_attr(c.func) == name]
+        if rec:
+            ctx.violation("R16i", fn.file, f"FibonacciHeap.{name}", rec[0], f"{name} recursion",
+                          f"`{norm(rec[0], 50)}`: {name} calls itself along the parent chain; a chain of marked ancestors longer than the "
+                          f"interpreter's recursion limit (reachable with a few thousand push/pop/remove operations) makes decrease_key "
+                          f"and remove raise RecursionError half-way, after which peek() no longer shows the smallest key and the size is wrong")
+    if not any(i.rule == "R16i" and i.verdict == "VIOLATION" for i in ctx.instances):
+        ctx.proved("R16i", m.files[m.classes[q][0]], "FibonacciHeap", None, "no self-recursive method", f"{n} methods, none calls itself")
+    ctx.floor("R16i", n, 15, "FibonacciHeap methods")
+
+
+def _norm_heap_helper(fn):
+    """ast dump of a module-level helper without annotations, docstring and positions, heap class names unified."""
+    import copy
+    node = clone_no_parent(fn)
+    node.returns = None
+    node.name = "F"
+    for a in node.args.args + node.args.kwonlyargs + ([node.args.vararg] if node.args.vararg else []):
+        a.annotation = None
+    body = [s_ for s_ in node.body if not (isinstance(s_, ast.Expr) and isinstance(s_.value, ast.Constant))]
+    out = []
+    for s_ in body:
+        for x in ast.walk(s_):
+            if isinstance(x, ast.Name) and x.id in ("MaxFibonacciHeap", "FibonacciHeap"):
+                x.id = "HEAP"
+            if isinstance(x, ast.AnnAssign):
+                x.annotation = ast.Constant(value=None)
+        out.append(ast.dump(s_))
+    return out
+
+
+def clone_no_parent(n):
+    from ..astx import clone
+    return clone(n)
+
+
+def r16j(ctx):
+    m = ctx.model
+    ctx.rule("R16j", "sibling agreement: utils.smallest and utils.largest are the same routine over the min- and the max-heap; "
+                     "statement by statement they may differ only in the heap class")
+    a, b = m.functions.get("graphtage.fibonacci.smallest") or m.functions.get("graphtage.utils.smallest"), \
+        m.functions.get("graphtage.fibonacci.largest") or m.functions.get("graphtage.utils.largest")
+    if a is None or b is None:
+        ctx.inconclusive("R16j", "graphtage/utils.py", "smallest/largest", None, "siblings", "smallest / largest not found")
+        return
+    da, db = _norm_heap_helper(a.node), _norm_heap_helper(b.node)
+    diff = [i for i, (x, y) in enumerate(zip(da, db)) if x != y]
+    if len(da) == len(db) and not diff:
+        ctx.proved("R16j", a.file, "smallest", a.node, "smallest ~ largest", f"{len(da)} statements agree up to the heap class")
+    else:
+        body = [s_ for s_ in a.node.body if not (isinstance(s_, ast.Expr) and isinstance(s_.value, ast.Constant))]
+        k = diff[0] if diff else min(len(da), len(db)) - 1
+        ctx.violation("R16j", a.file, "smallest", body[k] if k < len(body) else a.node, "smallest ~ largest",
+                      f"statement {k + 1} of smallest (`{norm(body[k], 70) if k < len(body) else '?'}`) differs from its counterpart in largest "
+                      f"beyond the heap class: one of the two mishandles an argument shape the other accepts (`smallest(5)` raises "
+                      f"TypeError where `largest(5)` yields 5)")
+
+
 def run(ctx):
+    r16i(ctx)
+    r16j(ctx)
     m = ctx.model
     q = m.need_class("FibonacciHeap")
     f_of = lambda n: m.method(q, n)
